@@ -143,6 +143,10 @@ Props(s)  == IF Has(s, "properties") THEN s.properties ELSE <<>>
 PropNames(s) == {Props(s)[i].k : i \in DOMAIN Props(s)}
 PropSchema(s, k) == Props(s)[CHOOSE i \in DOMAIN Props(s) : Props(s)[i].k = k].s
 Required(s) == IF Has(s, "required") THEN Rng(s.required) ELSE {}
+\* a definition with none of type, properties, enum, allOf, anyOf: generateReferencedType maps a reference to it to
+\* interface{} (a definition that is nothing but a $ref -- an alias -- or that only carries constraints).  Enum and
+\* allOf / anyOf definitions were in this class before fixes 5108797 and 843f8be.
+BareDef(t) == ~Has(t, "type") /\ ~Has(t, "properties") /\ ~Has(t, "enum") /\ ~Has(t, "allOf") /\ ~Has(t, "anyOf")
 
 EnvHas(env, n) == \E i \in DOMAIN env : env[i].k = n
 EnvGet(env, n) == env[CHOOSE i \in DOMAIN env : env[i].k = n].s
@@ -402,8 +406,8 @@ Valid(env, s, d, D, ctx, lim) ==
 ValidRef(env, s, d, D) ==
   IF ~EnvHas(env, s.ref.n) THEN Un
   ELSE LET t == EnvGet(env, s.ref.n) IN
-       \* deviation: a definition with neither `type` nor `properties` is referenced as interface{}
-       IF "UntypedEnumDefUnvalidated" \in D /\ ~Has(t, "type") /\ ~Has(t, "properties") THEN Acc
+       \* deviation: a definition that says nothing about its own shape (see BareDef) is referenced as interface{}
+       IF "BareDefUnvalidated" \in D /\ BareDef(t) THEN Acc
        \* deviation: a nullable primitive definition is declared as `type N *int` -- a pointer type cannot
        \* carry an unmarshaler, so its bounds / length / pattern are never checked
        ELSE IF "NullableDefUnvalidated" \in D /\ Nullable(t) /\ Main(t) \in {"integer", "number", "string"}
@@ -481,7 +485,7 @@ DevNeeds(x) ==
     [] x \in {"AddlIntTruncates", "AddlValuesTypedOnly", "AddlKeyEqualsFieldNameDropped", "AddlEmptyKeyDropped",
               "UntypedAddlNotCollected", "AddlMapDefaultDropped", "AddlNullPanics"} -> {"additionalProperties"}
     [] x \in {"Float64Bounds", "IntBoundTruncated"} -> {"minimum", "maximum", "exclusiveMinimum", "exclusiveMaximum"}
-    [] x \in {"UntypedEnumDefUnvalidated", "NullableDefUnvalidated", "SameNameDefsCollapse"} -> {"ref"}
+    [] x \in {"BareDefUnvalidated", "NullableDefUnvalidated", "SameNameDefsCollapse"} -> {"ref"}
     [] x \in {"EnumNullDefault", "DefaultOnNullableScalar", "DefaultOnFormat", "DefaultOnWrappedEnum", "DefaultOnNestedArray",
               "DefaultOnObjectWithOptionalFields"} -> {"default"}
     [] x = "AllOfFirstWins" -> {"allOf"}
@@ -523,8 +527,8 @@ Decoded(env, s, d, v, D) ==
   IF Has(s, "ref") THEN
        (\/ ~EnvHas(env, s.ref.n)
         \/ LET t == EnvGet(env, s.ref.n) IN
-           \* deviation UntypedEnumDefUnvalidated: the field is an interface{} that holds the document as it is
-           IF "UntypedEnumDefUnvalidated" \in D /\ ~Has(t, "type") /\ ~Has(t, "properties") THEN JEq(v, d)
+           \* deviation BareDefUnvalidated: the field is an interface{} that holds the document as it is
+           IF "BareDefUnvalidated" \in D /\ BareDef(t) THEN JEq(v, d)
            \* object items of a declared array are an anonymous struct: no unmarshaler, so no defaults
            ELSE IF "DeclaredArrayElemUnvalidated" \in D /\ Main(t) = "array" /\ Has(t, "items")
            THEN Decoded(env, [t EXCEPT !.items = StripDefaults(@)], d, v, D)
